@@ -395,6 +395,36 @@ impl SourceBlockEncoder {
         }
     }
 
+    // verification hook H3: direct solve without any plan or cache, with an explicit
+    // dense/sparse switch-over threshold (a private constant on the encoder side)
+    #[cfg(raptorq_verif)]
+    pub fn verif_new_unplanned(
+        source_block_id: u8,
+        config: &ObjectTransmissionInformation,
+        data: &[u8],
+        sparse_threshold: u32,
+    ) -> SourceBlockEncoder {
+        let source_symbols = SourceBlockEncoder::create_symbols(config, data);
+        let (intermediate_symbols, _operations) = gen_intermediate_symbols(
+            &source_symbols,
+            config.symbol_size() as usize,
+            sparse_threshold,
+        );
+        SourceBlockEncoder {
+            source_block_id,
+            source_symbols,
+            intermediate_symbols: intermediate_symbols.unwrap(),
+        }
+    }
+
+    // verification hook H3: the intermediate symbols C[0..L) in logical order
+    #[cfg(raptorq_verif)]
+    pub fn verif_intermediate_symbols(&self) -> Vec<Vec<u8>> {
+        (0..self.intermediate_symbols.len())
+            .map(|i| self.intermediate_symbols.get(i).to_vec())
+            .collect()
+    }
+
     pub fn source_packets(&self) -> Vec<EncodingPacket> {
         (0..self.source_symbols.len())
             .map(|i| {
